@@ -72,7 +72,7 @@ func (s *State) loadFieldOf(ref *T, st types.Type, i int) Val {
 		t := Select(arr, ref)
 		v.C = append(v.C, t)
 	}
-	s.afterLoad(v, names)
+	s.afterLoadAt(v, names, ref)
 	return v
 }
 
@@ -114,10 +114,12 @@ func (s *State) storeStruct(ref *T, st types.Type, v Val) {
 }
 
 // afterLoad adds the standing assumptions for a value read from the heap.
-func (s *State) afterLoad(v Val, arrays []string) {
+func (s *State) afterLoad(v Val, arrays []string) { s.afterLoadAt(v, arrays, nil) }
+
+func (s *State) afterLoadAt(v Val, arrays []string, obj *T) {
 	s.assumeTypeInv(v)
 	if isPointerLike(v.Typ) && len(v.C) == 1 {
-		s.assumeLoadedPtr(v.C[0], arrays)
+		s.assumeLoadedPtr(v.C[0], arrays, obj)
 	}
 	if _, ok := v.Typ.Underlying().(*types.Slice); ok && len(v.C) == 4 {
 		s.assumeAllocated(v.C[0])
@@ -126,7 +128,7 @@ func (s *State) afterLoad(v Val, arrays []string) {
 
 // assumeLoadedPtr: a pointer read from a heap array is nil, was allocated when the array's base version was
 // introduced, or is one of the values stored since.
-func (s *State) assumeLoadedPtr(p *T, arrays []string) {
+func (s *State) assumeLoadedPtr(p *T, arrays []string, obj *T) {
 	if len(arrays) != 1 {
 		s.assumeAllocated(p)
 		return
@@ -153,7 +155,14 @@ func (s *State) assumeLoadedPtr(p *T, arrays []string) {
 			asof = s.heapGet("Alloc", ArrSort(SInt, SBool))
 		}
 	}
-	alts = append(alts, Select(asof, p))
+	if obj == nil {
+		s.assumeAllocated(p)
+		return
+	}
+	// the closure property holds for objects that existed when the array version was introduced; a younger object
+	// (returned by library code) holds pointers that are allocated now
+	alts = append(alts, And(Select(asof, obj), Select(asof, p)))
+	alts = append(alts, And(Not(Select(asof, obj)), Select(s.heapGet("Alloc", ArrSort(SInt, SBool)), p)))
 	s.Assume(Or(alts...))
 }
 
